@@ -174,6 +174,11 @@ def check(repo, rep, tier):
     rep.rule('R8.4', 'conll fragments are the AUTO templates')
     rep.rule('R8.5', 'escaping discipline (denormalize in all writers, idempotent, reader keeps escaped spelling)')
     r_read_auto(repo, rep)
+    rep.rule('R8.6', 'what the encoder returns is printed as it is: no str.format / % over the text of a tree')
+    from ..lints import r_templates_constant
+    r_templates_constant(repo, rep, 'R8.6', repo.py_files('depccg/printer'),
+                         'a word that contains { or } (the escaped spelling of a brace is -LCB- / -RCB-, but read_auto keeps a raw one) makes the line raise or come out '
+                         'with a field replaced, so the line that is printed is not the one the encoder produced')
     am = repo.module(AUTO)
     p, (lst, leaf), (nst, node) = writer_templates(am, 'auto_of')
     ltoks = codec.fstr_tokens(leaf)
